@@ -76,7 +76,14 @@ func (d *DepOracle) walk(ctx *depCtx, inherited map[string]bool, preflights map[
 		}
 		if c.Bindings != nil {
 			for _, b := range c.Bindings.List {
-				d.expDeps(ctx, b.Exp, deps, 0)
+				if b.Id == "*" {
+					continue // also present in expanded form
+				}
+				filt := ""
+				if callee := d.callee(c.DecId); callee != nil {
+					filt = paramBase(callee, b.Id, false)
+				}
+				d.expDepsPath(ctx, b.Exp, nil, filt, deps, 0)
 			}
 		}
 		modDeps := map[string]bool{}
@@ -119,51 +126,127 @@ func (d *DepOracle) walk(ctx *depCtx, inherited map[string]bool, preflights map[
 
 // expDeps adds the stage call paths the expression's value depends on.
 func (d *DepOracle) expDeps(ctx *depCtx, e syntax.Exp, acc map[string]bool, depth int) {
+	d.expDepsPath(ctx, e, nil, "", acc, depth)
+}
+
+// structOf returns the struct type with this base name, if any.
+func (d *DepOracle) structOf(name string) *syntax.StructType {
+	if name == "" {
+		return nil
+	}
+	st, _ := d.ast.TypeTable.Get(syntax.TypeId{Tname: name}).(*syntax.StructType)
+	return st
+}
+
+func paramBase(c syntax.Callable, id string, out bool) string {
+	if out {
+		if ps := c.GetOutParams(); ps != nil {
+			if p := ps.Table[id]; p != nil {
+				return p.Tname.Tname
+			}
+		}
+		return ""
+	}
+	if ps := c.GetInParams(); ps != nil {
+		if p := ps.Table[id]; p != nil {
+			return p.Tname.Tname
+		}
+	}
+	return ""
+}
+
+func splitPath(s string) []string {
+	if s == "" {
+		return nil
+	}
+	return strings.Split(s, ".")
+}
+
+// expDepsPath: dependencies of the projection `e.path` (path-sensitive through
+// struct / map / array literals, exactly the static resolution MRO promises).
+// filt (when non-empty) is the base name of the struct type the value is
+// converted to after the projection: fields it does not declare are dropped
+// (struct narrowing), so they are not consumed.
+func (d *DepOracle) expDepsPath(ctx *depCtx, e syntax.Exp, path []string, filt string, acc map[string]bool, depth int) {
 	if e == nil || depth > 64 {
 		return
 	}
-	for _, ref := range e.FindRefs() {
-		switch ref.Kind {
+	switch exp := e.(type) {
+	case *syntax.SplitExp:
+		d.expDepsPath(ctx, exp.Value, path, filt, acc, depth+1)
+	case *syntax.ArrayExp:
+		for _, v := range exp.Value {
+			d.expDepsPath(ctx, v, path, filt, acc, depth+1)
+		}
+	case *syntax.MapExp:
+		if exp.Kind == syntax.KindStruct && len(path) > 0 {
+			if v, ok := exp.Value[path[0]]; ok {
+				d.expDepsPath(ctx, v, path[1:], filt, acc, depth+1)
+			}
+			return
+		}
+		if exp.Kind == syntax.KindStruct {
+			if st := d.structOf(filt); st != nil {
+				for _, m := range st.Members {
+					if v, ok := exp.Value[m.Id]; ok {
+						d.expDepsPath(ctx, v, nil, m.Tname.Tname, acc, depth+1)
+					}
+				}
+				return
+			}
+		}
+		for _, v := range exp.Value {
+			d.expDepsPath(ctx, v, path, filt, acc, depth+1)
+		}
+	case *syntax.RefExp:
+		full := append(splitPath(exp.OutputId), path...)
+		switch exp.Kind {
 		case syntax.KindSelf:
 			if ctx.parent == nil || ctx.call == nil || ctx.call.Bindings == nil {
-				continue
+				return
 			}
 			for _, b := range ctx.call.Bindings.List {
-				if b.Id == ref.Id || b.Id == "*" {
-					d.expDeps(ctx.parent, b.Exp, acc, depth+1)
+				if b.Id == exp.Id { // "*" bindings are also present in expanded form
+					f := filt
+					if len(full) == 0 && f == "" {
+						f = paramBase(ctx.pipe, exp.Id, false)
+					}
+					d.expDepsPath(ctx.parent, b.Exp, full, f, acc, depth+1)
 				}
 			}
 		case syntax.KindCall:
 			var call *syntax.CallStm
 			for _, c := range ctx.pipe.Calls {
-				if c.Id == ref.Id {
+				if c.Id == exp.Id {
 					call = c
 				}
 			}
 			if call == nil {
-				continue
+				return
 			}
-			path := append(append([]string{}, ctx.path...), call.Id)
+			cpath := append(append([]string{}, ctx.path...), call.Id)
 			switch callee := d.callee(call.DecId).(type) {
 			case *syntax.Stage:
-				acc[key(path)] = true
+				acc[key(cpath)] = true
 			case *syntax.Pipeline:
-				sub := &depCtx{pipe: callee, path: path, call: call, parent: ctx}
-				out := ref.OutputId
-				if i := strings.IndexByte(out, '.'); i >= 0 {
-					out = out[:i]
-				}
+				sub := &depCtx{pipe: callee, path: cpath, call: call, parent: ctx}
 				if callee.Ret != nil && callee.Ret.Bindings != nil {
 					for _, b := range callee.Ret.Bindings.List {
-						if out == "" || b.Id == out {
-							d.expDeps(sub, b.Exp, acc, depth+1)
+						if len(full) == 0 {
+							d.expDepsPath(sub, b.Exp, nil, paramBase(callee, b.Id, true), acc, depth+1)
+						} else if b.Id == full[0] {
+							f := filt
+							if len(full) == 1 && f == "" {
+								f = paramBase(callee, b.Id, true)
+							}
+							d.expDepsPath(sub, b.Exp, full[1:], f, acc, depth+1)
 						}
 					}
 				}
 				// a disabled sub-pipeline yields nulls: its condition is consumed too
 				if call.Modifiers != nil && call.Modifiers.Bindings != nil {
 					for _, b := range call.Modifiers.Bindings.List {
-						d.expDeps(ctx, b.Exp, acc, depth+1)
+						d.expDepsPath(ctx, b.Exp, nil, "", acc, depth+1)
 					}
 				}
 			}
